@@ -6,7 +6,7 @@ import os
 import shutil
 import tempfile
 
-from gearpy.units import Time
+from gearpy.units import Time, TimeInterval
 
 from gmc import menu, sim, si
 from gmc.core import Acc
@@ -126,7 +126,8 @@ def check_snapshot(acc, which, m, variables, t, t_unit, unit_over, tag=None):
     units.update(unit_over)
     case = {'kind': 'snap' if tag is None else 'snap-history', 'model': which, 'variables': variables, 't': t, 't_unit': t_unit, 'units': unit_over, 'tag': tag}
     sfx = '' if tag is None else '/' + tag
-    tq = Time(si.convert(t, 'Time', 'sec', t_unit), t_unit)
+    # (written in minutes, a positive target is handed over as a TimeInterval, a sub-kind of Time)
+    tq = (TimeInterval if (t > 0 and t_unit == 'min') else Time)(si.convert(t, 'Time', 'sec', t_unit), t_unit)
     acc.transitions += 1
     try:
         df = m.pt.snapshot(target_time=tq, variables=None if variables is None else list(variables),
